@@ -6,13 +6,7 @@ use crate::dest::{OpKind, SimDest};
 
 /// Check the destination content after `nops` completed destination calls.
 pub fn check_snapshot(dest: &SimDest, nops: u32, what: &str) -> Vec<Violation> {
-    let mut out = Vec::new();
     let snap = dest.snapshot_after(nops);
-    let start = dest.start as usize;
-    if snap.len() <= start {
-        return out;
-    }
-    let img = &snap[start..];
     // the pre-existing tail beyond what the writer produced is not part of the dump: cut the
     // view at the highest byte the writer has written so far
     let mut hi = 0usize;
@@ -22,9 +16,15 @@ pub fn check_snapshot(dest: &SimDest, nops: u32, what: &str) -> Vec<Violation> {
         }
         hi = hi.max(*pos as usize + bytes.len());
     }
-    if hi <= start {
+    check_image(&snap, dest.start as usize, hi, what)
+}
+
+fn check_image(snap: &[u8], start: usize, hi: usize, what: &str) -> Vec<Violation> {
+    let mut out = Vec::new();
+    if snap.len() <= start || hi <= start {
         return out;
     }
+    let img = &snap[start..];
     let img = &img[..(hi - start).min(img.len())];
     let d = decode::decode(img);
     for p in &d.problems {
@@ -34,6 +34,11 @@ pub fn check_snapshot(dest: &SimDest, nops: u32, what: &str) -> Vec<Violation> {
             continue;
         }
         // in a truncated image every reference must already be satisfiable
+        out.push(v("C10", &format!("prefix-{}", p.code), format!("{} ({} bytes present): {}", what, img.len(), p.detail)));
+    }
+    // an entry has to refer to its own stream's bytes: two objects claimed in one place (offsets that
+    // wrapped around 32 bits land on earlier content) means one of them is not where the entry says
+    for p in decode::overlaps(&d) {
         out.push(v("C10", &format!("prefix-{}", p.code), format!("{} ({} bytes present): {}", what, img.len(), p.detail)));
     }
     out
@@ -49,9 +54,23 @@ pub fn check_all_boundaries(dest: &SimDest) -> (Vec<Violation>, u32) {
         return (out, 0);
     };
     let mut checked = 0;
+    // the destination content is built up call by call (one buffer, each call's bytes applied once)
+    let mut snap = dest.pre.clone();
+    let mut hi = 0usize;
+    let mut pi = 0usize;
     for k in (fw as u32 + 1)..=n {
+        while pi < dest.patches.len() && dest.patches[pi].0 < k {
+            let (_, pos, bytes) = &dest.patches[pi];
+            let end = *pos as usize + bytes.len();
+            if snap.len() < end {
+                snap.resize(end, 0);
+            }
+            snap[*pos as usize..end].copy_from_slice(bytes);
+            hi = hi.max(end);
+            pi += 1;
+        }
         checked += 1;
-        let vs = check_snapshot(dest, k, &format!("after {} of {} destination calls", k, n));
+        let vs = check_image(&snap, dest.start as usize, hi, &format!("after {} of {} destination calls", k, n));
         if !vs.is_empty() {
             out.extend(vs);
             // one boundary is enough to report; keep scanning only for distinct oracle ids
